@@ -31,8 +31,15 @@ a new name), `Graph.clone(allow_outer_scope_values=True)` (`cloneSub`: the clone
 `Model.clone` / round trips of models with functions are in the model and in both streams.
 
 A third, oracle-only stream runs the same oracles on random models with subgraphs, functions, graph outputs and
-call nodes at IR versions 10-12, including `InlinePass` (the `mapped is None` branch of the clone remap, not
-modelled).  Exceptions are compared by type against the documented rejections.
+call nodes at IR versions 10-12, including `InlinePass`.  Exceptions are compared by type against the documented
+rejections.
+
+Stream `inline-pass` (harness/c19_inline.py, theorem C19_inline_pass / C19_inline_pass_axes): the complete real
+`InlinePass()` against the Lean model `inlinePass` (driver command `device.inline`) on generated annotated models with
+annotated function bodies (nested subgraphs inside), calls inside functions and subgraphs, graph / function outputs.
+
+Round trips: the hypothesis is `NamesChain` (names unique along every scope chain; the strict generator reuses names
+across function bodies, the main graph and sibling subgraphs), at every IR version (`C19_step_any` / `C19_history_any`).
 """
 from __future__ import annotations
 
@@ -56,6 +63,10 @@ THEOREMS = [
     "IrVerif.Device.C19_names_current",
     "IrVerif.Device.C19_roundtrip_legacy",
     "IrVerif.Device.C19_inline_remap",
+    "IrVerif.Device.C19_inline_pass",
+    "IrVerif.Device.C19_inline_pass_axes",
+    "IrVerif.Device.C19_step_any",
+    "IrVerif.Device.C19_history_any",
 ]
 ASSUMPTIONS = [
     "graphs nest (a node may own subgraphs - GRAPH and GRAPHS attributes - whose nodes use outer-scope values) and "
@@ -63,17 +74,34 @@ ASSUMPTIONS = [
     "are inside the model and the theorems; so are functions (ops newFunction / cloneFunc: a function body is a graph "
     "without initializers - the generator never registers one there -, edited and annotated through function.graph; "
     "cloneFunc = Function.clone + registration under a new name) and Graph.clone(allow_outer_scope_values=True) "
-    "(op cloneSub: the clone is attached to a node as a further GRAPH attribute); graph / function outputs, function "
-    "attributes, call nodes and InlinePass (the 'mapped is None' branch of the clone remap) are not modelled and are "
-    "exercised by the oracle-only stream on random models at IR versions 10-12",
-    "round trips below IR version 11 (C19_roundtrip_legacy: closed lists, unique names) count as in-alphabet: the "
-    "driver evaluates the theorem's hypotheses for every such round trip and reports them through the same `pre` flag",
+    "(op cloneSub: the clone is attached to a node as a further GRAPH attribute); graph / function outputs and call "
+    "nodes exist in the model of InlinePass only (side table ITab of Model/DeviceInl.lean: they are not part of the "
+    "operation alphabet of C19_step), function attributes are not modelled; the oracle-only stream exercises them on "
+    "random models at IR versions 10-12",
+    "round trips below IR version 11 are in the alphabet of C19_step_any / C19_history_any (PreAny: closed lists, names "
+    "unique per root, any IR version): the driver's `pre` flag is PreAny, evaluated for every operation",
+    "round-trip hypothesis NamesChain (for every graph: the named values of the graph and of its enclosing graphs have "
+    "pairwise different names; sibling subgraphs, function bodies and the main graph may reuse names): evaluated by the "
+    "driver and, independently, on the real objects for every generated round trip (compared; histogram key "
+    "rt_names=*); the strict generator reuses names outside the scope chain (about 30% of the values created once the "
+    "model has several graphs). Shadowing (a subgraph value named like a value of an enclosing graph) is outside "
+    "NamesChain - it is what ONNX forbids too - and generated in the wild stream only (key histories_with_shadowed_name)",
+    "C19_inline_pass: stream inline-pass (harness/c19_inline.py): the real InlinePass() against the Lean model "
+    "inlinePass on generated annotated models (annotated function bodies with nested subgraphs, calls inside functions "
+    "and inside subgraphs, missing / None arguments, returned function inputs, users that shard call outputs); "
+    "hypotheses DevOK and HeapReg evaluated per case (keys inline_hyp_*); value names are never None (the harness names "
+    "every value, '' for anonymous), opsets agree, no function is called Identity, call graphs are acyclic; the state "
+    "after a raising pass is not compared (the pass is not atomic). C19_inline_pass_axes (WeakOK in full: axis clauses "
+    "for every spec whose target is outside the ghost set `subst`) needs GraphIds in addition (graph inputs / "
+    "initializers exist; key inline_hyp_graphids); `subst` is ghost state of the model: the oracle translates it to the "
+    "real objects through the structural correspondence of the two results and checks that axis-range / repeated-axis "
+    "violations occur on substituted targets only; the driver's evaluation of WeakOK is checked on every case",
     "function inputs keep non-empty names (FunctionProto.input is a list of names and their shapes travel in value_info by "
     "name; an unnamed function input loses its shape on reload, which the model does not represent)",
-    "C19_inline_remap: only the inliner's instantiation of one body node without subgraphs is modelled "
+    "C19_inline_remap: the inliner's instantiation of one body node without subgraphs "
     "(Cloner.clone_node with a None-valued value map, driver command device.inst, compared with the real "
     "_cloner.Cloner on random nodes / maps; hypothesis 'specs target inputs/outputs' evaluated per case, key inst_hyp); "
-    "the composition of the pass stays oracle-only",
+    "the composition of the pass is C19_inline_pass (stream inline-pass)",
     "C19_names_current: its hypotheses (a successful rename of v, Pre for every later operation, no later rename of "
     "v) are evaluated on every generated history; for each such (rename, later step) pair every serialized spec that "
     "targets v is compared with the assigned name on the real NodeProtos (histogram key names_current_instances)",
@@ -93,8 +121,9 @@ ASSUMPTIONS = [
     "after sharding, hand-built ill-formed tuples, re-attachment anywhere) and is used for the correspondence "
     "(including the checker's error output) and the unconditional oracles only",
     "Value.uses() is modelled as 'some node of the heap has the value as an input'",
-    "after InlinePass the axis-range / repeated-axis messages of the checker are not counted: inlining substitutes "
-    "arguments for formal parameters of unknown rank (observation, outside C19)",
+    "after InlinePass the axis-range / repeated-axis messages of the checker are not counted in the rich stream: "
+    "inlining substitutes arguments for formal parameters of another rank (C19_inline_pass names exactly these "
+    "messages; the inline-pass stream checks that they occur only on substituted targets)",
 ]
 
 _MSG_KINDS = [
@@ -738,6 +767,76 @@ class Gen:
         self.fresh += 1
         return f"{prefix}{self.fresh}"
 
+    def root_graph_of(self, graph):
+        g, hops = graph, 0
+        while hops < 12:
+            owner = self.owner_of(g)
+            if owner is None or owner.graph is None:
+                return g
+            g, hops = owner.graph, hops + 1
+        return g
+
+    @staticmethod
+    def own_values(g):
+        """the values a graph declares or uses itself (`ownVals` of the Lean model)"""
+        vs = list(g.inputs) + list(g.initializers.values())
+        for n in g:
+            vs += [v for v in list(n.inputs) + list(n.outputs) if v is not None]
+        return vs
+
+    def graph_tree(self, model):
+        """[(graph, [ancestors, outermost first])] for every graph of the model"""
+        out = []
+
+        def walk(g, anc):
+            out.append((g, anc))
+            for n in g:
+                for sg in Real.subgraphs_of(n):
+                    walk(sg, anc + [g])
+
+        for root in [model.graph] + [f.graph for f in model.functions.values()]:
+            walk(root, [])
+        return out
+
+    def chain_ok(self, model):
+        """NamesChain on the real objects: for every graph, the named values of the graph and of its enclosing graphs
+        have pairwise different names"""
+        for g, anc in self.graph_tree(model):
+            seen = {}
+            for h in anc + [g]:
+                for v in self.own_values(h):
+                    if v.name:
+                        if v.name in seen and seen[v.name] is not v:
+                            return False, v
+                        seen[v.name] = v
+        return True, None
+
+    def value_name(self, prefix, graph, model):
+        """a fresh name, or (30%) a name already used in the model OUTSIDE the scope chain of `graph` and outside
+        everything nested under it (sibling subgraphs, other function bodies, the main graph seen from a function):
+        names are unique per scope chain only (NamesChain)"""
+        r = self.rng
+        tree = self.graph_tree(model)
+        if len(tree) > 1 and r.random() < 0.3:
+            mine = next((anc for g, anc in tree if g is graph), None)
+            if mine is not None:
+                related = [g for g, anc in tree if g is graph or any(a is graph for a in anc)] + mine
+                forb = {v.name for h in related for v in self.own_values(h) if v.name}
+                others = sorted({v.name for g, _ in tree for v in self.own_values(g) if v.name} - forb)
+                if others:
+                    self.reused = getattr(self, "reused", 0) + 1
+                    return r.choice(others)
+        if not self.strict and r.random() < 0.12:
+            # wild: shadow a name of an enclosing graph (outside NamesChain)
+            owner = self.owner_of(graph)
+            if owner is not None and owner.graph is not None:
+                outer = sorted({v.name for v in list(owner.graph.inputs) + [o for k in owner.graph for o in k.outputs] if v.name})
+                if outer:
+                    self.tainted = True
+                    self.shadowed = getattr(self, "shadowed", 0) + 1
+                    return r.choice(outer)
+        return self.name(prefix)
+
     def shape(self):
         r = self.rng
         if r.random() < 0.3:
@@ -832,14 +931,19 @@ class Gen:
                     "devs": [r.randrange(2) for _ in range(r.choice([0, 1]))], "stage": stage}
 
         sx, so, sfx, sfo, st, su = (self.shape() for _ in range(6))
+        nx, no = self.name("x"), self.name("o")
+        # half of the time the function body reuses the names of the main graph (names are unique per scope chain only)
+        fx, fo = (nx, no) if r.random() < 0.5 else (self.name("x"), self.name("o"))
+        if fx == nx:
+            self.reused = getattr(self, "reused", 0) + 1
         ops = [
-            {"op": "newInput", "g": 0, "name": self.name("x"), "shape": sx},
-            {"op": "newNode", "g": 0, "ins": [0], "outs": [{"name": self.name("o"), "shape": so}]},
+            {"op": "newInput", "g": 0, "name": nx, "shape": sx},
+            {"op": "newNode", "g": 0, "ins": [0], "outs": [{"name": no, "shape": so}]},
             {"op": "addCfg", "m": 0, "name": self.name("cfg"), "num": 2, "names": []},
             {"op": "addCfg", "m": 0, "name": self.name("cfg"), "num": 3, "names": []},
             {"op": "newFunction", "m": 0},
-            {"op": "newInput", "g": 1, "name": self.name("x"), "shape": sfx},
-            {"op": "newNode", "g": 1, "ins": [2], "outs": [{"name": self.name("o"), "shape": sfo}]},
+            {"op": "newInput", "g": 1, "name": fx, "shape": sfx},
+            {"op": "newNode", "g": 1, "ins": [2], "outs": [{"name": fo, "shape": sfo}]},
             {"op": "newSubgraph", "n": 1, "graphs": r.random() < 0.3},
             {"op": "newNode", "g": 2, "ins": [2, 3][: r.choice([1, 2])], "outs": [{"name": self.name("o"), "shape": st}]},
             shard(2, 4, 0, st, r.choice([None, 1])),
@@ -994,7 +1098,7 @@ class Gen:
             else:
                 return {"op": "setModelCfgs", "m": m, "cfgs": [r.randrange(len(real.cfgs)) for _ in range(r.choice([0, 1, 2, 3]))]}
         if kind == "newInput":
-            return {"op": "newInput", "g": g, "name": self.name("x"), "shape": self.shape()}
+            return {"op": "newInput", "g": g, "name": self.value_name("x", graph, model), "shape": self.shape()}
         if kind == "newNode":
             k = r.choice([0, 1, 2, 2, 3])
             ins = []
@@ -1006,7 +1110,12 @@ class Gen:
                     ins.append(self.pick_value(model))
                 else:
                     ins.append(None)
-            outs = [{"name": self.name("o"), "shape": self.shape()} for _ in range(r.choice([1, 1, 2, 3]))]
+            outs = []
+            for _ in range(r.choice([1, 1, 2, 3])):
+                nm = self.value_name("o", graph, model)
+                if any(o["name"] == nm for o in outs):
+                    nm = self.name("o")
+                outs.append({"name": nm, "shape": self.shape()})
             return {"op": "newNode", "g": g, "ins": ins, "outs": outs}
         if kind == "removeNode":
             own = [real.nid[id(n)] for n in graph]
@@ -1143,12 +1252,10 @@ class Gen:
             if strict:
                 # the in-alphabet condition asks for unique names of the named values; a previous round trip may
                 # have split a value that was used from two unrelated scopes into two values of the same name
-                seen = {}
-                for v in self.model_values(model):
-                    nm = real.values[v].name
-                    if nm and nm in seen:
-                        return {"op": "rename", "v": v, "name": self.name("r")}
-                    seen[nm] = v
+                # (names need to be unique per scope chain only: NamesChain)
+                ok, dup = self.chain_ok(model)
+                if not ok:
+                    return {"op": "rename", "v": real.vid[id(dup)], "name": self.name("r")}
             return {"op": "roundTrip", "m": m}
         raise AssertionError(kind)
 
@@ -1194,6 +1301,7 @@ def run_history(seed: int, strict: bool, length: int, part: Part, fixed_ops=None
         if k in ("replaceInput", "resizeInputs", "resizeOutputs", "removeNode"):
             drop_node = op["n"]
             before_dev = real.node_dev(real.nodes[drop_node])
+        rt_scoped = gen.chain_ok(real.models[op["m"]])[0] if k == "roundTrip" and op["m"] < len(real.models) else None
         res, out = real.apply(op)
         if res == "raised" and real.last_exc not in Real.ALLOWED_EXC.get(k, set()):
             part.fail(f"unexpected-exception-type:{k}:{real.last_exc}",
@@ -1202,7 +1310,7 @@ def run_history(seed: int, strict: bool, length: int, part: Part, fixed_ops=None
         after = real.state()
         prev_state = after
         ops.append(op)
-        steps.append({"res": res, "out": out, "state": after, "facts": real_facts(real)})
+        steps.append({"res": res, "out": out, "state": after, "facts": real_facts(real), "rt_scoped": rt_scoped})
         part.count(f"op={k}:{res}")
         if any(n_.device_configurations for m_ in real.models for f_ in m_.functions.values() for n_ in Real.walk_nodes(f_.graph)):
             part.count("steps_with_annotated_function_node")
@@ -1271,6 +1379,10 @@ def run_history(seed: int, strict: bool, length: int, part: Part, fixed_ops=None
         if todo is None and any(not f["signature"].startswith("accepted-unregistered-configuration:")
                                 for f in part["failures"][nfail0:]):
             break
+    if getattr(gen, "reused", 0):
+        part.count("histories_with_name_reused_across_roots")
+    if getattr(gen, "shadowed", 0):
+        part.count("histories_with_shadowed_name")
     return ops, steps, annotated and edited
 
 
@@ -1399,6 +1511,16 @@ def compare(ops, steps, part: Part, info):
             _check_names_current(st["state"], renamed, part, {"info": info, "ops": ops[: i + 1]}, op["op"])
         f = st["facts"]
         case = {"info": info, "ops": ops[: i + 1]}
+        if op["op"] == "roundTrip" and isinstance(ms.get("out"), dict) and st.get("rt_scoped") is not None:
+            # the round-trip hypothesis: Lean's NamesScoped against the evaluation on the real objects
+            mo = ms["out"]
+            part.count("rt_names=" + ("unique" if mo.get("namesUnique") else "chain_only" if mo.get("namesChain") else "neither"))
+            if bool(mo.get("namesChain")) != bool(st["rt_scoped"]):
+                part.disagree("NamesChain (Lean) != per-scope-chain uniqueness evaluated on the real objects", case,
+                              mo.get("namesChain"), st["rt_scoped"])
+                return
+            if ms.get("pre") and mo.get("namesChain") and not mo.get("namesUnique") and st["res"] == "ok":
+                part.count("roundTrip_in_alphabet_only_by_per_chain_names")
         if info.get("strict") and not ms.get("pre"):
             part.disagree(f"strict generator produced {op['op']} outside the model's Pre", case, ms.get("pre"), True)
             return
@@ -1837,6 +1959,27 @@ def run_inst(ctx: Ctx, n: int) -> None:
                          "a spec of the instantiated node targets a value that is not an input/output of it", {"inst": c})
 
 
+def _inline_worker(arg):
+    logging.disable(logging.CRITICAL)
+    from harness import c19_inline
+
+    seed, count = arg
+    r = random.Random(seed)
+    part = Part()
+    cases = [c19_inline.gen_case(r) for _ in range(count)]
+    try:
+        outs = _lean([{"m": "device.inline", **c} for c in cases])
+    except Exception as e:
+        part.fail(f"inline-pass: harness-exception {type(e).__name__}", repr(e)[:300], {"seed": seed, "regenerate": "inline"})
+        return part
+    for c, o in zip(cases, outs):
+        try:
+            c19_inline.run_case(c, o, _kind, part)
+        except Exception as e:  # real code crashing on a generated model, or a harness bug
+            part.disagree(f"inline-pass: exception {type(e).__name__} while comparing", {"inline": c}, None, repr(e)[:300])
+    return part
+
+
 def run(ctx: Ctx) -> None:
     logging.disable(logging.CRITICAL)
     ctx.rule = (
@@ -1866,11 +2009,25 @@ def run(ctx: Ctx) -> None:
         ctx.merge(part)
     # the inliner's instantiation of a body node (C19_inline_remap)
     run_inst(ctx, ctx.pick(600, 6000))
+    # the complete InlinePass (C19_inline_pass)
+    n_inl = ctx.pick(400, 4000)
+    ijobs = [(ctx.rng.randrange(1 << 40), min(50, n_inl - i)) for i in range(0, n_inl, 50)]
+    for part in pmap(_inline_worker, ijobs):
+        ctx.merge(part)
 
 
 def replay(ctx: Ctx, obj: dict) -> None:
     logging.disable(logging.CRITICAL)
     case = obj.get("case", obj)
+    if "inline" in case:
+        from harness import c19_inline
+
+        c = case["inline"]
+        part = Part()
+        o = _lean([{"m": "device.inline", **c}])[0]
+        c19_inline.run_case(c, o, _kind, part, stream="corpus")
+        ctx.merge(part)
+        return
     if "inst" in case:
         c = case["inst"]
         mo = _lean([{"m": "device.inst", "node": c["node"], "vm": c["vm"], "base": c["base"]}])[0]
